@@ -56,12 +56,12 @@ Section WithH.
       all_bytes wire = true -> (12 <= length wire)%nat ->
       t_error rd = 0 -> NameM.name_eqb (kalg k) (t_alg rd) = true ->
       rfc_time_ok now2 now (t_fudge rd) ->
-      r_pos st = length wire -> r_ctx st = ctx ->
+      r_pos st = length wire -> r_ctx st = ctx -> r_origin st = None ->
       get_rr H out (KR_Key k) rmac now2 multi 3 count (count - 1) st
       = Ok {| r_pos := length out; r_tsig := Some (kname k, rd'); r_ctx := c';
-              r_recs := (3, TSIG, ANY, length wire) :: r_recs st; r_opt := r_opt st |}.
+              r_recs := (3, TSIG, ANY, length wire) :: r_recs st; r_opt := r_opt st; r_origin := None |}.
   Proof.
-    intros until st. intros SM Vk Va AB L12 Er Al Ti Pos Cx.
+    intros until st. intros SM Vk Va AB L12 Er Al Ti Pos Cx ON.
     apply sign_message_inv in SM as (SG & ad & rr & AD & RR & ->).
     pose proof (get_adcount_range _ _ AB AD) as ADr.
     (* shape of the message *)
@@ -99,7 +99,7 @@ Section WithH.
       apply in_u16_iff in I2, I3. apply Z.leb_le in I1a, I4a, I4b. apply Z.ltb_lt in I1b.
       rewrite Fa in Aa. split; [exact Va|]. repeat split; try assumption; lia. }
     rewrite (get_rr_on_tsig_rr H pre (kname k) rd' rr (KR_Key k) rmac now2 multi count st Vk Ak OKt RR)
-      by (rewrite Pos; symmetry; exact LP).
+      by (assumption || (rewrite Pos; symmetry; exact LP)).
     cbn [find_key bind].
     (* validate accepts: sign_then_validate on pre ++ rr *)
     assert (GA : get_adcount (pre ++ rr) = Ok (a * 256 + b + 1)).
@@ -174,6 +174,15 @@ Section WholeRead.
       apply IHn in E as [T' C']; [|lia]. split; congruence.
   Qed.
 
+  Lemma get_section_n_origin : forall n w kr rmac now multi section count i0 st st',
+    get_section_n w kr rmac now multi section count i0 n st = Ok st' -> r_origin st' = r_origin st.
+  Proof.
+    induction n; intros until st'; intros E; cbn [get_section_n] in E.
+    - inversion E. reflexivity.
+    - destruct (get_rr H w kr rmac now multi section count i0 st) as [st1| |] eqn:G; cbn [bind] in E; try discriminate.
+      apply get_rr_origin in G. apply IHn in E. congruence.
+  Qed.
+
   (* The message `out` that sign_message produced, read back: if the part of `out` before the
      TSIG RR parses (questions, ANSWER, AUTHORITY and the ADDITIONAL records before the TSIG,
      ending where the TSIG RR starts), the whole read succeeds, validated, with the signer's
@@ -192,7 +201,7 @@ Section WholeRead.
       ((fst fl / 2048) mod 16 =? 5) = false ->
       get_question out (Z.to_nat (fst qd)) 12 = Ok p ->
       get_section H out (KR_Key k) rmac now2 multi 1 (fst an) (Z.to_nat (fst an))
-        {| r_pos := p; r_tsig := None; r_ctx := ctx; r_recs := []; r_opt := false |} = Ok s1 ->
+        {| r_pos := p; r_tsig := None; r_ctx := ctx; r_recs := []; r_opt := false; r_origin := None |} = Ok s1 ->
       get_section H out (KR_Key k) rmac now2 multi 2 (fst au) (Z.to_nat (fst au)) s1 = Ok s2 ->
       1 <= fst ad ->
       get_section_n out (KR_Key k) rmac now2 multi 3 (fst ad) 0 (Z.to_nat (fst ad - 1)) s2 = Ok s3 ->
@@ -212,12 +221,15 @@ Section WholeRead.
     cbn [r_tsig r_ctx] in T1, C1.
     apply get_section_n_prefix_keeps in S3 as S3'; [|rewrite Z2Nat.id by lia; lia].
     destruct S3' as (T3 & C3).
+    assert (OR : r_origin s3 = None).
+    { apply get_section_n_origin in S3. apply get_section_origin in S2. apply get_section_origin in S1.
+      cbn [r_origin] in S1. congruence. }
     assert (CX : r_ctx s3 = ctx) by congruence.
     assert (TX : r_tsig s3 = None) by congruence.
     (* the last ADDITIONAL record *)
     pose proof (signed_rr_reads_back_validated_lemma H wire k rd now rmac ctx multi out rd' c' now2 (fst ad) s3
-                  SM Vk Va AB L12 Er Al Ti Pos CX) as LAST.
-    unfold read.
+                  SM Vk Va AB L12 Er Al Ti Pos CX OR) as LAST.
+    unfold read, read_gen.
     destruct (Nat.ltb_spec (length out) 12) as [Bad|_]; [lia|].
     rewrite Hfl, Hqd, Han, Hau, Had. cbn [bind]. rewrite Op. rewrite Q. cbn [bind].
     rewrite S1. cbn [bind]. rewrite S2. cbn [bind].
